@@ -30,6 +30,7 @@ type scriptResult struct {
 	equivCrt bool
 	merged   int
 	evidence int
+	late     int
 }
 
 // runScript executes one script on a fresh real Voter and (when drv != nil) on the reset Lean model.
@@ -139,7 +140,9 @@ func runScript(lines []string, drv *vh.Driver) scriptResult {
 			}
 		}
 	}
+	w.finish()
 	res.viol = w.led.viol
+	res.late = w.nLate
 	// an unmatched violation must never hide behind a known finding's: report those first (stable, deterministic)
 	sort.SliceStable(res.viol, func(i, j int) bool {
 		if (res.viol[i].matcher == "") != (res.viol[j].matcher == "") {
@@ -278,6 +281,7 @@ func run(c *vh.Ctx) error {
 		res.DistN("own-precommits", r.precs)
 		res.DistN("double-voter-observations", b01(r.doubles > 0))
 		res.DistN("double-vote-evidence-posted(BLS world)", r.evidence)
+		res.DistN("commit-events-packed-and-verified-late(after further deliveries)", r.late)
 		if r.crashed {
 			res.Dist("voter-panicked(predicted)")
 		}
